@@ -293,26 +293,41 @@ def _c19_hist(tier, seed):
     return history_bounded(tier, seed)
 
 
+def _c19_keys(tier, seed):
+    from contracts.bounded_alg import keys_history_bounded
+    return keys_history_bounded(tier, seed)
+
+
+def _c19_hooks(R, tier, seed):
+    from contracts.bounded_alg import key_classes_have_default_pickling
+    return key_classes_have_default_pickling(R, tier, seed)
+
+
 def _c07_b(tier, seed):
     from contracts.bounded_alg import scalar_mul_bounded
     return scalar_mul_bounded(tier, seed)
 
 
 _HIST = [PJ_ + f for PJ_ in ("ecdsa.ellipticcurve.PointJacobi.",) for f in ("__getstate__", "__setstate__")] + \
-    ["ecdsa.ecdsa.Public_key.__eq__", "ecdsa.ecdsa.Private_key.__eq__", _K + "VerifyingKey.__eq__", _K + "SigningKey.__eq__", _K + "VerifyingKey.precompute"]
+    ["ecdsa.ecdsa.Public_key.__eq__", "ecdsa.ecdsa.Private_key.__eq__", _K + "VerifyingKey.__eq__", _K + "SigningKey.__eq__", _K + "VerifyingKey.precompute",
+     "ecdsa.curves.Curve.__eq__"]
 PROPS["C19"] = dict(
     level="other",
     functions=_OBJ + _AFF + _HIST + ["ecdsa.ellipticcurve.PointJacobi." + f for f in ("_maybe_precompute", "_mul_precompute", "__mul__", "__rmul__", "mul_add")],
     lemmas=[],
     bounded=[dict(function="ecdsa.ellipticcurve.PointJacobi.__mul__", label="operation histories against the affine reference model", role="bounded stand-in for the history quantifier (and for the scalar-multiplication / table steps of a history)",
                   bound="random walks of 1..8 public operations (x, y, scale, to_affine, double, neg, add, mul, eq, pickle round trip, mul_add, affine + jacobi) over a pool of 3..8 live points in 4 stored representations on toy curves of prime order over F_p, p <= 17 (quick: 400 walks per curve) / 31 (thorough: 5000); then every live object is compared with a fresh object of the same value on 7 observers; == against value equality on all representation pairs",
-                  run=_c19_hist)],
+                  run=_c19_hist),
+             dict(function=_K + "VerifyingKey.precompute", label="key histories against a fresh key pair", role="bounded stand-in for the history quantifier over keys",
+                  bound="3 (quick) / 5 (thorough) curve x hash configurations x 12 / 80 random histories of 1..6 operations out of precompute (eager, lazy), pickle / copy / deepcopy of either key, sign, verify, serialise, reload from DER / PEM, point scale / multiply; then serialisations, default hash, deterministic signatures and cross verification are compared with a fresh key pair of the same secret",
+                  run=_c19_keys)],
+    closed=[_c19_hooks],
     min_obligations=60,
     trusted_base=["field axioms of F_p; sympy normal forms (see C06)",
                   "induction over the length of a history: every public method preserves the view of every live object and its result is a function of views only (the per-method obligations are discharged, the induction step is a meta-argument)",
                   "PointJacobi.__mul__ inside VerifyingKey.precompute is applied by its frame contract (may rescale the stored triple to the same view, may publish the table); that frame is discharged at the group level (obligations frame-operand-keeps-its-value, table-of-the-view, published-table-never-replaced)",
                   "group level (see C07): REP/ISO abstraction of the C06 contracts; no point of order 2 (F6)",
-                  "pickle itself (the protocol between __getstate__ and __setstate__) hands over the state dictionary unchanged"],
+                  "pickle itself (the protocol between __getstate__ and __setstate__) hands over the state dictionary unchanged; the key classes define no pickling / copying hook (checked on the current source every run), so their pickles are their instance dictionaries"],
     explanation="object-level contracts in field mode: every PointJacobi / Point method is specified through the view (the denoted affine point) of its operands only, preserves the view of every operand and writes nothing but a view-preserving __coords; __getstate__/__setstate__ copy exactly the fields; key equality is equality of curve parameters, views (and scalars) for every stored representation; VerifyingKey.precompute replaces the point by one of equal view",
 )
 
